@@ -73,6 +73,13 @@ structure Checker where
   actions : Nat := 0
   failed : Option String := none
 
+/-- which conjuncts of a `becomeLeader` guard hold (explains a DISABLED answer) -/
+def diag (cfg : Cfg) (s : State) : Action → String
+  | .becomeLeader n q =>
+    let nd := s.nodes n
+    s!" [candidate={decide (nd.role = .candidate)} quorum={cfg.isQuorum q} ownVoteDurable={decide ((nd.vol.term, n) ∈ nd.dur.votes)} reqVotesCovered={reqVotesCovered s.msgs nd.vol.term n nd.vol.log} votesInSoup={decide (∀ v ∈ q, v = n ∨ Msg.vote nd.vol.term v n ∈ s.msgs)}]"
+  | _ => ""
+
 def Checker.act (c : Checker) (t : List String) : Checker × String :=
   match c.failed with
   | some _ => (c, "skipped")
@@ -82,6 +89,6 @@ def Checker.act (c : Checker) (t : List String) : Checker × String :=
     | some a =>
       match step? c.cfg c.st a with
       | some s' => ({ c with st := s', actions := c.actions + 1 }, "ok")
-      | none => ({ c with failed := some "disabled" }, "DISABLED " ++ " ".intercalate t)
+      | none => ({ c with failed := some "disabled" }, "DISABLED " ++ " ".intercalate t ++ diag c.cfg c.st a)
 
 end RaftVerif.Spec
